@@ -170,6 +170,14 @@ func c17RetryCases() []c17Case {
 			}
 		}
 	}
+	// the global timeout covers the whole request, retries included: every attempt silent, per-try 100 ms,
+	// retry back-off 10 ms -> attempts at 0, 110, 220 ms; the global timeout answers at 250 ms
+	for _, g := range []int{250, 150, 330} {
+		sc := hpScenario{Hosts: 2, RouteTimeoutMs: g, TryTimeoutMs: 100, RetryOn: true, NumRetries: 4,
+			Requests: []hpRequest{{Token: "t1", Script: []string{upSilent}}}}
+		sc.Name = fmt.Sprintf("retry global-timeout-spans-retries global=%d try=100", g)
+		out = append(out, c17Case{Kind: "timeout-spans", Sc: sc, WantTimeoutMs: int64(g), WantAttempts: 1 + g/110})
+	}
 	// freshly chosen host: the first attempt's host is ejected before the retry is decided
 	for _, o := range []string{upReplyBusy, upClose, upSilent} {
 		sc := hpScenario{Hosts: 2, RouteTimeoutMs: 60000, TryTimeoutMs: 100, RetryOn: true, NumRetries: 1, EjectFirstHost: true,
@@ -299,6 +307,17 @@ func c17Eval(p *vreport.Part, c c17Case, bound int) {
 				_ = d
 				report("timeout: effective timeout differs from the documented precedence (protocol-supplied, else request headers, else route, else default)",
 					fmt.Sprintf("timeout reply %d ms after the request went upstream, expected %d ms", resp[0].AtMs-atts[0].f.AtMs, c.WantTimeoutMs))
+			}
+		case "timeout-spans":
+			if resp[0].Status != bolt.ResponseStatusTimeout {
+				report("timeout: silent upstream was not completed by a timeout reply", fmt.Sprintf("status %d", resp[0].Status))
+			} else if len(atts) > 0 {
+				if d := resp[0].AtMs - atts[0].f.AtMs; d != c.WantTimeoutMs {
+					report("timeout: the global timeout does not cover the whole request including its retries", fmt.Sprintf("reply %d ms after the first attempt, configured %d ms; %d attempts", d, c.WantTimeoutMs, len(atts)))
+				}
+				if len(atts) != c.WantAttempts {
+					report("timeout: number of attempts within the global timeout differs", fmt.Sprintf("%d attempts, expected %d", len(atts), c.WantAttempts))
+				}
 			}
 		case "retry":
 			budget := 3
